@@ -109,6 +109,8 @@ class FlakyExecutor : public ::babylon::Executor {
   Schedule sch;
   uint64_t seed = 0;
   std::atomic<uint64_t> launches {0}, refused {0};
+  // accepted launches handed to the real executor / whose closure began / whose closure returned
+  std::atomic<uint64_t> accepted {0}, started {0}, finished {0};
   std::atomic<bool> healthy_now {false};  // set by the harness for the final recovery phase
 
   bool decide(uint64_t k) const {
@@ -133,7 +135,13 @@ class FlakyExecutor : public ::babylon::Executor {
       return -1;
     }
     VF_COUNT("obs:launch_accepted");
-    return base->invoke(::std::move(function));
+    accepted.fetch_add(1, std::memory_order_relaxed);
+    FlakyExecutor* self = this;
+    return base->invoke([self, f = ::std::move(function)] {
+      self->started.fetch_add(1, std::memory_order_relaxed);
+      f();
+      self->finished.fetch_add(1, std::memory_order_relaxed);
+    });
   }
 };
 
@@ -294,6 +302,39 @@ void do_join(World& w, int thread) {
   w.joins.push_back(j);
 }
 
+// oversubscription: restrict to k CPUs chosen by the episode rng (not always CPUs 0..k-1: the machine is shared with
+// other harness processes that would all crowd onto the same cores)
+void pin_some_cpus(int k, vf::Rng& r) {
+  int ncpu = int(sysconf(_SC_NPROCESSORS_ONLN));
+  if (k <= 0 || k >= ncpu) { vf::pin_cpus(0); return; }
+  cpu_set_t set;
+  CPU_ZERO(&set);
+  int first = int(r.below(uint64_t(ncpu)));
+  for (int i = 0; i < k; ++i) CPU_SET((first + i) % ncpu, &set);
+  sched_setaffinity(0, sizeof set, &set);
+}
+
+// every kernel task of the process (library-created threads have no vf slot): state + current syscall
+std::string all_tasks_dump() {
+  std::string o = "kernel tasks:\n";
+  DIR* d = opendir("/proc/self/task");
+  if (!d) return o;
+  while (struct dirent* e = readdir(d)) {
+    if (e->d_name[0] == '.') continue;
+    char p[128], st[512] = "", sc[256] = "";
+    snprintf(p, sizeof p, "/proc/self/task/%s/stat", e->d_name);
+    int fd = ::open(p, O_RDONLY);
+    if (fd >= 0) { ssize_t n = ::read(fd, st, sizeof st - 1); if (n > 0) st[n] = 0; ::close(fd); }
+    snprintf(p, sizeof p, "/proc/self/task/%s/syscall", e->d_name);
+    fd = ::open(p, O_RDONLY);
+    if (fd >= 0) { ssize_t n = ::read(fd, sc, sizeof sc - 1); if (n > 0) { sc[n] = 0; if (sc[n - 1] == '\n') sc[n - 1] = 0; } ::close(fd); }
+    char* rp = strrchr(st, ')');
+    o += vf::fmt("  tid %s state=%c syscall=[%.60s]\n", e->d_name, rp && rp[1] ? rp[2] : '?', sc);
+  }
+  closedir(d);
+  return o;
+}
+
 const std::vector<std::string> kStallPoints = {
     "eq:empty_before_cas", "eq:empty_before_cas", "eq:empty_before_cas", "eq:pushed_before_signal",
     "eq:pushed_before_signal", "eq:submit_failed", "eq:launching", "bq:push_ticket", "cb:eq_item_assign", "cb:eq_consume",
@@ -306,6 +347,7 @@ struct Totals {
 
 void run_episode(Episode ep) {
   vf::Rng r(vf::mix(ep.seed, ep.index, 0xe9));
+  double t_begin = vf::now_s();
   World w;
   w.ep = ep;
   // executor
@@ -335,7 +377,7 @@ void run_episode(Episode ep) {
   w.ep.policy = vf::draw_policy(r, kStallPoints, 60, 6000);
   g_world = &w;
   vf::watchdog().set_context(w.ep.describe());
-  vf::pin_cpus(ep.pin);
+  pin_some_cpus(ep.pin, r);
   w.phase.store("producers-running", std::memory_order_relaxed);
   vf::watchdog().arm(true);
 
@@ -372,7 +414,7 @@ void run_episode(Episode ep) {
           // queue without consumer (new rising edge / new launch). Bounded by the watchdog.
           vf::set_op("wait-own-consumed", s - 1);
           Rec& last = w.items[size_t(t)][s - 1];
-          while (last.consumed.load(std::memory_order_relaxed) == 0 && !vf::failed()) vf::raw_sleep_us(20);
+          while (last.consumed.load(std::memory_order_relaxed) == 0 && !vf::failed()) vf::raw_sleep_us(100);
           vf::set_op(nullptr);
         }
       }
@@ -526,6 +568,10 @@ void run_episode(Episode ep) {
   g_world = nullptr;
   w.q.reset();
   w.pool.reset();
+  if (vf::args().get("verbose", 0)) {
+    fprintf(stderr, "[c16] %.3fs items=%lu launches=%lu blocked=%lu %s\n", vf::now_s() - t_begin, (unsigned long)total,
+            (unsigned long)launches, (unsigned long)w.blocked.load(), w.ep.describe().c_str());
+  }
 }
 
 Episode draw_common(uint64_t seed, uint64_t index, vf::Rng& r) {
@@ -544,6 +590,14 @@ Episode draw_common(uint64_t seed, uint64_t index, vf::Rng& r) {
   return ep;
 }
 
+// a thread per consumer launch (up to one per item): keep those episodes small, thread creation costs
+// ~0.1 ms plain and several ms under ASan (fake stacks)
+void cap_newthread(Episode& ep) {
+  if (ep.base != 2) return;
+  uint32_t total = VF_ASAN ? 96 : 240;
+  ep.per_producer = std::max<uint32_t>(10, std::min<uint32_t>(ep.per_producer, total / uint32_t(ep.producers)));
+}
+
 }  // namespace
 
 int main(int argc, char** argv) {
@@ -554,14 +608,30 @@ int main(int argc, char** argv) {
     World* w = g_world;
     if (!w) return "";
     // Every schedule refuses only finitely many launches (or with probability < 1 among the first n), flaky
-    // episodes run the recovery signaller, every consumer-side callback terminates: no progress is a violation.
+    // episodes run the recovery signaller, every consumer-side callback terminates: no progress is a violation --
+    // unless the (trusted, real) executor has accepted a launch whose closure it has not begun to run yet: then
+    // the queue under test is waiting for the environment (thread creation / worker wake-up), not the reverse.
+    if (w->ep.wrapped && w->flaky.started.load(std::memory_order_relaxed) < w->flaky.accepted.load(std::memory_order_relaxed)) {
+      return "";
+    }
     return std::string("stuck:") + (w->ep.flaky() ? "flaky-with-recovery-thread:" : "healthy-executor:") +
            w->phase.load(std::memory_order_relaxed);
   };
   wd.dump_extra = []() -> std::string {
     World* w = g_world;
     if (!w || !w->q) return "";
-    return vf::fmt("events=%zu queue{push=%zu pop=%zu cap=%zu} consumed=%lu submitted=%lu producers_done=%d launches=%lu "
+    std::string pq;
+    if (w->pool) {
+      auto& g = w->pool->_global_task_queue;
+      pq = vf::fmt("pool global queue{push=%zu pop=%zu cap=%zu} slot words:", g._next_push_index.load(), g._next_pop_index.load(),
+                   g.capacity());
+      for (size_t i = 0; i < g.capacity() && i < 32; ++i) {
+        pq += vf::fmt(" [%zu]%p=0x%x", i, (void*)&g._slots.futex(i)._futex.value(), g._slots.futex(i)._futex.value().load());
+      }
+      pq += "\n";
+    }
+    return all_tasks_dump() + pq + vf::fmt("accepted=%lu started=%lu finished=%lu\n", (unsigned long)w->flaky.accepted.load(),
+                   (unsigned long)w->flaky.started.load(), (unsigned long)w->flaky.finished.load()) + vf::fmt("events=%zu queue{push=%zu pop=%zu cap=%zu} consumed=%lu submitted=%lu producers_done=%d launches=%lu "
                    "refused=%lu inside=%d\n",
                    w->q->_events.load(), w->q->_queue._next_push_index.load(), w->q->_queue._next_pop_index.load(),
                    w->q->capacity(), (unsigned long)w->consumed_total.load(), (unsigned long)w->submitted_total.load(),
@@ -572,9 +642,9 @@ int main(int argc, char** argv) {
 
   std::string mode = a.mode.empty() ? "all" : a.mode;
   uint64_t n_healthy = 0, n_enum = 0, n_rand = 0;
-  if (mode == "all" || mode == "healthy") n_healthy = vf::budget(140, 4000);
+  if (mode == "all" || mode == "healthy") n_healthy = vf::budget(80, 4000);
   if (mode == "all" || mode == "enumerated") n_enum = a.thorough ? 63 * std::max<uint64_t>(1, uint64_t(4 * a.scale)) : 63;
-  if (mode == "all" || mode == "random-faults") n_rand = vf::budget(50, 1500);
+  if (mode == "all" || mode == "random-faults") n_rand = vf::budget(30, 1500);
   if (a.kv.count("episodes") && mode == "enumerated") n_enum = uint64_t(a.get("episodes", 63));
   auto want = [&](uint64_t idx) { return a.only_episode < 0 || uint64_t(a.only_episode) == idx; };
   uint64_t e = 0;
@@ -589,7 +659,7 @@ int main(int argc, char** argv) {
     ep.joiner = r.chance(1, 2);
     ep.signaller = ep.wrapped ? r.chance(1, 3) : r.chance(1, 6);
     ep.producer_joins = r.chance(1, 2);
-    if (ep.base == 2) ep.per_producer = std::min<uint32_t>(ep.per_producer, 80);
+    cap_newthread(ep);
     run_episode(ep);
   }
   // 2. enumerated fault schedules: every single / double refusal among the first 6 launches x 3 executors
@@ -620,7 +690,7 @@ int main(int argc, char** argv) {
     Episode ep = draw_common(a.seed, e, r);
     ep.base = int(r.below(3));
     ep.wrapped = true;
-    if (ep.base == 2) ep.per_producer = std::min<uint32_t>(ep.per_producer, 80);
+    cap_newthread(ep);
     switch (r.below(3)) {
       case 0: ep.sch.kind = Schedule::RUN; ep.sch.k1 = r.range(1, 8); ep.sch.k2 = r.range(2, 40); break;
       case 1: ep.sch.kind = Schedule::PROB; ep.sch.k1 = r.range(5, 200); ep.sch.num = uint32_t(r.range(1, 3)); ep.sch.den = 4; break;
